@@ -1,6 +1,9 @@
 package props
 
-import "astverif/errflow"
+import (
+	"astverif/errflow"
+	"astverif/layout"
+)
 
 func init() { register("C18", "other", c18) }
 
@@ -32,6 +35,10 @@ func c18(c *Ctx) {
 	// the counts writePacket reports are bytes accepted by the caller's writer only if the muxer's packet writer writes
 	// straight into it (a buffer in between would report bytes the writer never accepted when the flush fails)
 	muxerWriterLink(c, "E5", "bitsWriter", "w", true, "the byte counts of writePacket are bytes handed to the caller's writer")
+	// "a byte count no larger than what the writer accepted": the count writePacket reports is built by the same accounting
+	// that decides the packet's size — on every outcome it is the sum of what the emission calls returned (A1b of C04:
+	// a fill loop that counts iterations instead of written bytes over-reports once the batch has latched an error)
+	layout.New(c.P).ExactSize(r, "writePacket", "targetPacketSize", 0x47)
 	r.Floor("E2", "io-tainted error call sites", r.Counters["io_error_call_sites"], 40)
 	r.Count("writer_tainted_funcs", len(sets.Writer))
 	r.Count("reader_tainted_funcs", len(sets.Reader))
